@@ -213,3 +213,13 @@ def grouped(xs):
     for t in xs:
         out.setdefault(t.topic, {})[t.partition] = t
     return out
+
+
+def is_asc(xs):
+    """non-decreasing list: sorted(xs) == xs"""
+    return all(a <= b for a, b in zip(xs, xs[1:]))
+
+
+def octets(key):
+    """the octets a partition key stands for: UTF-8 of a str, the content of bytes / bytearray"""
+    return key.encode('utf-8') if isinstance(key, str) else bytes(key)
